@@ -89,3 +89,37 @@ theorem partition_sizes_sum (n : ℕ) (lo hi : ℕ → ℤ) (s m : ℤ) (hn : 1 
   rw [hn'] at h
   rw [h, last, first]
   ring
+
+/-- every batch of a chained partition lies inside the covered range -/
+theorem partition_bounds (n : ℕ) (lo hi : ℕ → ℤ) (s m : ℤ) (hn : 1 ≤ n)
+    (first : lo 0 = s) (last : hi (n-1) = s + m)
+    (chain : ∀ k, k + 1 < n → hi k = lo (k+1))
+    (nonempty : ∀ k, k < n → lo k < hi k) :
+    ∀ k, k < n → s ≤ lo k ∧ hi k ≤ s + m := by
+  have mono : ∀ k, k < n → s ≤ lo k := by
+    intro k
+    induction k with
+    | zero => intro _; rw [first]
+    | succ j ih =>
+      intro hj
+      have hj' : j < n := Nat.lt_of_succ_lt hj
+      have h1 := ih hj'
+      have h2 := nonempty j hj'
+      have h3 := chain j hj
+      omega
+  have up : ∀ d k, k + d + 1 = n → hi k ≤ s + m := by
+    intro d
+    induction d with
+    | zero =>
+      intro k hk
+      have : k = n - 1 := by omega
+      rw [this, last]
+    | succ e ih =>
+      intro k hk
+      have hk1 : k + 1 < n := by omega
+      have h3 := chain k hk1
+      have h2 := nonempty (k+1) hk1
+      have h4 := ih (k+1) (by omega)
+      omega
+  intro k hk
+  exact ⟨mono k hk, up (n - 1 - k) k (by omega)⟩
